@@ -2,7 +2,7 @@
 import ast
 
 from sa.variance import path_literals
-from .common import (Ctx, call_name, dotted, is_name, kw, local_assignments, norm, own_calls,
+from .common import (Ctx, alias_dotted, call_name, dotted, is_name, kw, local_assignments, norm, own_calls,
                      sources_of)
 
 P = 'C11'
@@ -218,14 +218,87 @@ def r2_rng_discipline(ctx, rep, R='C11.R2'):
 
 
 def feature_order(ctx):
+    """the classes Runner.configure registers as features, in registration order.  The statements of
+    the function are read in order: direct ``self.features.append(C(self))`` calls, and lists of
+    classes built up (display, +=, append, extend; conditional parts in place) that a loop or a
+    comprehension then instantiates into self.features."""
     fi = ctx.model.func('runner.Runner.configure')
-    order = []
-    for st in fi.node.body:
-        for c in ast.walk(st):
-            if isinstance(c, ast.Call) and isinstance(c.func, ast.Attribute) and \
-                    c.func.attr == 'append' and dotted(c.func.value) == 'self.features' and c.args \
-                    and isinstance(c.args[0], ast.Call):
-                order.append((dotted(c.args[0].func) or '').split('.')[-1])
+    order, env = [], {}
+    fnode = fi.node
+
+    def is_feats(e):
+        return (alias_dotted(fnode, e) or dotted(e) or '') == 'self.features'
+
+    full = {}
+
+    def cls_of(e):
+        d = dotted(e)
+        if d:
+            full[d.split('.')[-1]] = d
+        return d.split('.')[-1] if d else None
+
+    def inst(e, var=None):
+        """C(self) -> C ; f(self) with f == var -> var marker"""
+        if isinstance(e, ast.Call) and e.args and is_name(e.args[0], 'self'):
+            return cls_of(e.func)
+        return None
+
+    def elems(e):
+        if isinstance(e, (ast.List, ast.Tuple)):
+            out = [cls_of(x) for x in e.elts]
+            return out if all(out) else None
+        if isinstance(e, ast.Name) and e.id in env:
+            return list(env[e.id])
+        return None
+
+    def walk(body):
+        for st in body:
+            if isinstance(st, ast.Assign) and len(st.targets) == 1 and isinstance(st.targets[0], ast.Name):
+                ev = elems(st.value)
+                if ev is not None and ev:
+                    env[st.targets[0].id] = ev
+            elif isinstance(st, ast.AugAssign) and isinstance(st.target, ast.Name) and \
+                    isinstance(st.op, ast.Add) and st.target.id in env:
+                ev = elems(st.value)
+                if ev:
+                    env[st.target.id] += ev
+            elif isinstance(st, ast.Expr) and isinstance(st.value, ast.Call) and \
+                    isinstance(st.value.func, ast.Attribute):
+                c = st.value
+                recv, meth = c.func.value, c.func.attr
+                if is_feats(recv) and meth == 'append' and c.args:
+                    k = inst(c.args[0])
+                    if k:
+                        order.append(k)
+                elif is_feats(recv) and meth == 'extend' and c.args and \
+                        isinstance(c.args[0], (ast.GeneratorExp, ast.ListComp)):
+                    g0 = c.args[0].generators[0]
+                    src = elems(g0.iter)
+                    if src and isinstance(g0.target, ast.Name) and inst(c.args[0].elt) == g0.target.id:
+                        order.extend(src)
+                elif isinstance(recv, ast.Name) and recv.id in env and meth == 'append' and c.args:
+                    k = cls_of(c.args[0])
+                    if k:
+                        env[recv.id].append(k)
+                elif isinstance(recv, ast.Name) and recv.id in env and meth == 'extend' and c.args:
+                    ev = elems(c.args[0])
+                    if ev:
+                        env[recv.id] += ev
+            elif isinstance(st, ast.For) and isinstance(st.target, ast.Name):
+                src = elems(st.iter)
+                if src:
+                    for x in ast.walk(st):
+                        if isinstance(x, ast.Call) and isinstance(x.func, ast.Attribute) and \
+                                x.func.attr == 'append' and is_feats(x.func.value) and x.args and \
+                                inst(x.args[0]) == st.target.id:
+                            order.extend(src)
+                else:
+                    walk(st.body)
+            if isinstance(st, (ast.If, ast.With, ast.Try)):
+                walk(st.body)
+                walk(getattr(st, 'orelse', []) or [])
+    walk(fnode.body)
+    ctx.feature_dotted = full
     return fi, order
 
 
@@ -244,10 +317,11 @@ def r3_feature_order(ctx, rep, R='C11.R3'):
     re_assign = [n for n in ast.walk(fi.node) if isinstance(n, ast.Assign) and any(
         dotted(t) == 'self.features' for t in n.targets)]
     ok = all(isinstance(n.value, ast.ListComp) and len(n.value.generators) == 1 and
-             dotted(n.value.generators[0].iter) == 'self.features' and
+             (alias_dotted(fi.node, n.value.generators[0].iter) or
+              dotted(n.value.generators[0].iter)) == 'self.features' and
              is_name(n.value.elt, n.value.generators[0].target.id) for n in re_assign)
     muts = [c for c in own_calls(fi.node) if isinstance(c.func, ast.Attribute) and
-            dotted(c.func.value) == 'self.features' and c.func.attr in
+            (alias_dotted(fi.node, c.func.value) or dotted(c.func.value)) == 'self.features' and c.func.attr in
             ('sort', 'reverse', 'insert', 'remove', 'pop')]
     rep.check(ok and not muts, R, 'the feature list is only filtered afterwards (order preserved)',
               'the feature list is reordered after registration', key='feature-order:kept',
